@@ -125,7 +125,9 @@ JA_LEX = {
     '。': ['S[mod=nm,form=base,fin=t]\\S[mod=nm,form=base,fin=f]'], 'た': ['S[mod=nm,form=base,fin=f]\\S[mod=nm,form=base,fin=f]'],
     '赤い': ['NP[case=nc,mod=X1,fin=X2]/NP[case=nc,mod=X1,fin=X2]', 'S[mod=adn,form=base,fin=f]'],
 }
-ADVERSARIAL = ['(', ')', '[', ']', '{', '}', '<', '>', 'a<b', 'x>y', '&', 'R&D', '"', "'", "it's", '/', 'a/b', 'naïve', '日本', '<L', 'T>', '|', '-LRB-', '.', ',', '!', 'a-b', '-', 'a.b', '100%', '#', 'a=b', 'see-LRB-s-RRB-', 'a-RAB-b', '-LCB-x', 'x-RCB-', '-LAB-', 'p-LSB-q-RSB-']
+ADVERSARIAL = ['(', ')', '[', ']', '{', '}', '<', '>', 'a<b', 'x>y', '&', 'R&D', '"', "'", "it's", '/', 'a/b', 'naïve', '日本', '<L', 'T>', '|', '-LRB-', '.', ',', '!', 'a-b', '-', 'a.b', '100%', '#', 'a=b', 'see-LRB-s-RRB-', 'a-RAB-b', '-LCB-x', 'x-RCB-', '-LAB-', 'p-LSB-q-RSB-',
+               # brackets inside longer tokens (unbalanced within the token), and characters outside the Basic Multilingual Plane
+               ':-(', 'a(b', ':)', 'f(x)', ')x(', '[a', 'b]', '{c', '\U00020bb7', '\U0001f600', 'a\U0001f600b']
 
 
 def jsonnet_table(name, key):
